@@ -100,7 +100,7 @@ def run(ctx):
         vm.polar = bool(rng.random() < 0.7)
         # ---------------- configuration phase
         reals, cplx = [], []
-        for k in range(int(rng.integers(2, 6))):
+        for k in range(int(rng.integers(2, 8))):
             nm = "m%d" % k
             if rng.random() < 0.6:
                 vm.add_real_var(nm, value=float(rng.uniform(-2, 2)), trainable=bool(rng.random() < 0.6))
@@ -132,14 +132,25 @@ def run(ctx):
                     vm.set_fix(nm, value=float(rng.uniform(-1, 1)) if rng.random() < 0.5 else None)
                     log.append(("config", "set_fix", nm))
         constrained = set()  # complex names whose components are separately tied / bounded
+        fixed_before_ties = {nm for nm in vm.variables if nm not in vm.trainable_vars}
         # ties
-        if len(reals) >= 4 and rng.random() < 0.35:
+        if len(reals) >= 4 and rng.random() < 0.5:
             # several var_equal statements that overlap: two pairs, then a statement bridging them (one merged group of four)
             pick = [str(x) for x in rng.choice(reals, size=4, replace=False)]
             for grp in ([pick[0], pick[1]], [pick[2], pick[3]], [pick[int(rng.integers(2))], pick[2 + int(rng.integers(2))]]):
                 vm.set_same(list(grp))
                 log.append(("config", "set_same", grp))
             ctx.covered("tie_statements", "overlapping")
+            rest = [x for x in reals if x not in pick]
+            if rest and rng.random() < 0.6:
+                # a further statement ties one more parameter (free or fixed) to a member of the merged group
+                rest_fixed = [x for x in rest if x not in vm.trainable_vars]
+                extra_grp = [pick[int(rng.integers(4))], str(rng.choice(rest_fixed if rest_fixed and rng.random() < 0.7 else rest))]
+                if rng.random() < 0.5:
+                    extra_grp.reverse()
+                vm.set_same(list(extra_grp))
+                log.append(("config", "set_same", extra_grp))
+                ctx.covered("tie_statements", "overlapping + one more statement")
         elif len(reals) >= 2 and rng.random() < 0.7:
             grp = list(rng.choice(reals, size=int(rng.integers(2, min(3, len(reals)) + 1)), replace=False))
             vm.set_same(list(grp))
@@ -171,6 +182,16 @@ def run(ctx):
                 vm.set_bound({nm: bd})
                 bounded[nm] = bd
                 log.append(("config", "set_bound", nm, bd))
+        # a parameter fixed before the tie statements stays fixed: every name sharing its storage is outside the free set (otherwise
+        # the next fit step / re-randomisation would change it without an assignment)
+        by_store = {}
+        for nm_, var_ in vm.variables.items():
+            by_store.setdefault(id(var_), []).append(nm_)
+        leaks = [(sorted(g_), [x for x in g_ if x in vm.trainable_vars]) for g_ in by_store.values()
+                 if len(g_) > 1 and any(x in fixed_before_ties for x in g_) and any(x in vm.trainable_vars for x in g_)]
+        ctx.check("model: fixed parameters change only when assigned", not leaks,
+                  lambda: {"config": [x for x in log if x[0] == "config"], "tie_groups_with_a_fixed_member_still_free": leaks, "fixed_before_the_ties": sorted(fixed_before_ties)},
+                  mechanism="a parameter fixed before the tie statements is free after them")
         # tie groups by storage identity (reference from the configuration steps)
         def groups():
             g = {}
